@@ -88,9 +88,10 @@ class Probe:
         self.log.append(('notify', self.uid, name))
         notify(name, uid=self.uid)
 
-    def cond(self, j, v, old, event):
+    def cond(self, j, v, old, event, *flags):
         self.cond_n += 1
-        self.log.append(('cond', j, v, None if old is None else (old.v, len(old.w), len(old.u[0]), old.box.n), ev(event), self.cond_n))
+        e = ('cond', j, v, None if old is None else (old.v, len(old.w), len(old.u[0]), old.box.n), ev(event), self.cond_n)
+        self.log.append(e + (flags,) if flags else e)
         self._hook('cond')
         if self.fail_at is not None and self.cond_n == self.fail_at:
             return False
